@@ -22,6 +22,19 @@ def run(ctx):
         ev = json.loads(x["lines"][x["event"] - 1]) if 0 < x["event"] <= len(x["lines"]) else {}
         core.report(ctx, {"check": "Mon_JobQueue", "invariant": x["invariant"], "op": ev.get("ev", "?")},
                     {"events": [json.loads(l) for l in x["lines"]], "failing_event": x["event"]})
+    # 6. schedules: concurrent producers against the agent's check-ins on the real queue (JobQueueConc.tla)
+    core.design_check(ctx, "JobQueueConc.tla", "JobQueueConc.cfg", timeout=900)
+    runs = [[{"op": "Run", "producers": p, "per": (1500 if quick else 6000)}] for p in ([2, 4, 8, 8] if quick else [2, 3, 4, 6, 8, 8, 12, 16] * 2)]
+    ctrace, csumm = core.run_harness(ctx, hb, "jobconc", runs, "jobconc", shards=min(4, len(runs)), timeout=1500)
+    for inc in csumm["incidents"]:
+        core.report(ctx, {"check": "replay-concurrent", "kind": inc["kind"], "site": inc["site"]}, inc)
+    cv = core.validate_traces(ctx, "Trace_JobQueueConc.tla", "Trace_JobQueueConc_strict.cfg", "Trace_JobQueueConc_mon.cfg", ctrace, "jobconc", timeout=1500, max_viol=4)
+    for x in cv["violations"]:
+        if x["invariant"] == "MonNoCrash":
+            continue
+        ev = [json.loads(l) for l in x["lines"]][-1]
+        core.report(ctx, {"check": "Mon_JobQueueConc", "invariant": x["invariant"]},
+                    {"producers": ev["producers"], "per_producer": ev["per"], "added": ev["producers"] * ev["per"], "delivered": len(ev["got"]), "distinct_delivered": len({tuple(t) for t in ev["got"]})})
     distinct = len({core.behaviour_hash(b) for b in allb})
     core.write_evidence(ctx, "model_checking",
         rule="behaviours = every JobQueue action sequence of length 2 (BFS) plus seeded random walks of length 8 from TLC -simulate, each replayed on a fresh real teamserver and drained; distinct = distinct histories; non-trivial = contains a check-in that delivered a task",
@@ -29,4 +42,4 @@ def run(ctx):
         exhaustive=False,
         assumptions=["refdemon (independent decoder written from the Demon sources) is the byte-level oracle",
                      "relay-style producers are represented by direct AddJobToQueue calls with socket-write shaped jobs"],
-        extra={"counters": summ["counters"], "events": summ["events"], "bounded_exhaustive_depth": 2})
+        extra={"counters": summ["counters"], "events": summ["events"], "bounded_exhaustive_depth": 2, "concurrent_runs": csumm["counters"]})
